@@ -99,12 +99,14 @@ theorem injFile_core (w w' : Tape.World) (src : Str) (hw : w (splitSource src).2
     · simp [Except.map, core] at h ⊢; exact h
     · split
       · simp [Except.map, core] at h ⊢; exact h
-      · have := injWriteFile_core (splitSource src).1
-          (dispatch (splitSource src).1 (splitSource src).2.1 (splitSource src).2.2.1).2.2
-          (dispatch (splitSource src).1 (splitSource src).2.1 (splitSource src).2.2.1).1
-          (dispatch (splitSource src).1 (splitSource src).2.1 (splitSource src).2.2.1).2.1 data 4 a b h
-        revert this
-        cases injWriteFile _ _ _ _ data 4 a <;> cases injWriteFile _ _ _ _ data 4 b <;> simp [Except.map]
+      · split
+        · simp [Except.map, core] at h ⊢; exact h
+        · have := injWriteFile_core (splitSource src).1
+            (dispatch (splitSource src).1 (splitSource src).2.1 (splitSource src).2.2.1).2.2
+            (dispatch (splitSource src).1 (splitSource src).2.1 (splitSource src).2.2.1).1
+            (dispatch (splitSource src).1 (splitSource src).2.1 (splitSource src).2.2.1).2.1 data 4 a b h
+          revert this
+          cases injWriteFile _ _ _ _ data 4 a <;> cases injWriteFile _ _ _ _ data 4 b <;> simp [Except.map]
 
 theorem injLoop_core (w w' : Tape.World) (srcs : List Str) (hw : ∀ s ∈ srcs, w (splitSource s).2.2.2 = w' (splitSource s).2.2.2) :
     ∀ (a b : Inj), core a = core b → (injLoop w srcs a).map core = (injLoop w' srcs b).map core := by
@@ -178,12 +180,14 @@ theorem injFile_core2 (w w' : Tape.World) (s s' : Str) (hs : SameSource w w' s s
     · simp [Except.map, core] at h ⊢; exact h
     · split
       · simp [Except.map, core] at h ⊢; exact h
-      · have := injWriteFile_core (splitSource s).1
-          (dispatch (splitSource s).1 (splitSource s).2.1 (splitSource s).2.2.1).2.2
-          (dispatch (splitSource s).1 (splitSource s).2.1 (splitSource s).2.2.1).1
-          (dispatch (splitSource s).1 (splitSource s).2.1 (splitSource s).2.2.1).2.1 data 4 a b h
-        revert this
-        cases injWriteFile _ _ _ _ data 4 a <;> cases injWriteFile _ _ _ _ data 4 b <;> simp [Except.map]
+      · split
+        · simp [Except.map, core] at h ⊢; exact h
+        · have := injWriteFile_core (splitSource s).1
+            (dispatch (splitSource s).1 (splitSource s).2.1 (splitSource s).2.2.1).2.2
+            (dispatch (splitSource s).1 (splitSource s).2.1 (splitSource s).2.2.1).1
+            (dispatch (splitSource s).1 (splitSource s).2.1 (splitSource s).2.2.1).2.1 data 4 a b h
+          revert this
+          cases injWriteFile _ _ _ _ data 4 a <;> cases injWriteFile _ _ _ _ data 4 b <;> simp [Except.map]
 
 theorem injLoop_core2 (w w' : Tape.World) : ∀ (srcs srcs' : List Str), AllSame (SameSource w w') srcs srcs' →
     ∀ (a b : Inj), core a = core b → (injLoop w srcs a).map core = (injLoop w' srcs' b).map core := by
@@ -362,5 +366,109 @@ theorem disk_add_writes_only_archive (fl : Flavour) (w : Tape.World) (verbose : 
 theorem disk_read_leaves_archive (fl : Flavour) (verbose : Bool) (raw : Bytes) :
     (Disk.list fl verbose raw).writes = [] ∧ (Disk.list fl verbose raw).mkdirs = [] :=
   C18.disk_list_readonly fl verbose raw
+
+/-! ### extraction never replaces the archive it reads -/
+
+theorem tape_keep_step (extract : Bool) (dir : Str) (s : Tape.RState) (raw : Bytes) :
+    (Tape.readStep extract dir s raw).1.keep = s.keep ∧
+    ((Tape.readStep extract dir s raw).1.writes = s.writes ∨
+      ∃ p c, (Tape.readStep extract dir s raw).1.writes = s.writes ++ [(p, c)] ∧ Tape.collides s.keep p = false) := by
+  unfold Tape.readStep
+  cases Tape.blockType raw with
+  | invalid => exact ⟨rfl, Or.inl rfl⟩
+  | leader =>
+    simp only
+    cases Tape.descOfBlock raw with
+    | error e => exact ⟨rfl, Or.inl rfl⟩
+    | ok d => exact ⟨rfl, Or.inl rfl⟩
+  | data =>
+    simp only
+    cases Tape.onDataBlock s.l raw with
+    | error e => exact ⟨rfl, Or.inl rfl⟩
+    | ok l' => exact ⟨rfl, Or.inl rfl⟩
+  | eof =>
+    simp only
+    cases extract with
+    | false =>
+      simp only [Bool.false_eq_true, if_false]
+      cases Tape.onEndBlock s.l with
+      | error e => exact ⟨rfl, Or.inl rfl⟩
+      | ok r => exact ⟨rfl, Or.inl rfl⟩
+    | true =>
+      simp only [if_true]
+      cases s.desc with
+      | none => exact ⟨rfl, Or.inl rfl⟩
+      | some d =>
+        simp only
+        split
+        · exact ⟨rfl, Or.inl rfl⟩
+        · split
+          · exact ⟨rfl, Or.inl rfl⟩
+          · rename_i hcol
+            split
+            · exact ⟨rfl, Or.inl rfl⟩
+            · split
+              · exact ⟨rfl, Or.inl rfl⟩
+              · cases Tape.onEndBlock s.l with
+                | error e => exact ⟨rfl, Or.inr ⟨_, _, rfl, by simpa using hcol⟩⟩
+                | ok r => exact ⟨rfl, Or.inr ⟨_, _, rfl, by simpa using hcol⟩⟩
+
+theorem tape_keep_loop (dir : Str) (k : Option Str) (blocks : List Bytes) : ∀ (s : Tape.RState), s.keep = k →
+    (∀ w ∈ s.writes, Tape.collides k w.1 = false) →
+    ∀ w ∈ (Tape.readLoop true dir s blocks).2.writes, Tape.collides k w.1 = false := by
+  induction blocks with
+  | nil => intro s _ hs; simpa [Tape.readLoop] using hs
+  | cons raw rest ih =>
+    intro s hk hs
+    simp only [Tape.readLoop]
+    have hst := tape_keep_step true dir s raw
+    cases hstep : Tape.readStep true dir s raw with
+    | mk s' e =>
+      rw [hstep] at hst
+      obtain ⟨hk', hw'⟩ := hst
+      dsimp only at hk' hw'
+      have hs' : ∀ w ∈ s'.writes, Tape.collides k w.1 = false := by
+        intro w hw
+        rcases hw' with h | ⟨p, c, h, hc⟩
+        · rw [h] at hw; exact hs w hw
+        · rw [h] at hw
+          simp only [List.mem_append, List.mem_singleton] at hw
+          rcases hw with h1 | h1
+          · exact hs w h1
+          · rw [h1, ← hk]; exact hc
+      cases e with
+      | none => exact ih s' (hk'.trans hk) hs'
+      | some err => simpa using hs'
+
+/-- **C20 (tape: extraction never replaces the archive it reads)**: whatever the bytes of the tape,
+    the names it announces and the destination, no path `--extract` writes is the archive itself
+    (`samePath`: equal after lexical normalisation, both relative or both absolute) — a member named
+    like the archive makes the run stop before anything is written over it -/
+theorem tape_extract_never_overwrites_archive (verbose : Bool) (archive : Str) (into : Option Str) (tape : Bytes) :
+    ∀ w ∈ (Tape.extract verbose archive into tape).writes, samePath w.1 archive = false := by
+  unfold Tape.extract
+  exact tape_keep_loop _ (some archive) _ _ rfl (by simp)
+
+/-- **C20 (disk: extraction never replaces the archive it reads)**: whatever the bytes of the image —
+    any catalog, any names — and the destination, no path `--extract` writes is the archive itself -/
+theorem disk_extract_never_overwrites_archive (fl : Flavour) (verbose : Bool) (archive : Str) (into : Option Str) (raw : Bytes) :
+    ∀ w ∈ (Disk.extract fl verbose archive into raw).writes, samePath w.1 archive = false := by
+  intro w hw
+  unfold Disk.extract at hw
+  cases hl : Disk.load fl raw with
+  | error e => rw [hl] at hw; simp at hw
+  | ok img =>
+    rw [hl] at hw
+    dsimp only at hw
+    have hfin : ∀ (r : Disk.RdState × Option PyErr), (Disk.finishRead r).writes = r.1.writes := by
+      intro r; obtain ⟨s, o⟩ := r; cases o <;> rfl
+    rw [hfin] at hw
+    exact (C18.readSides_writes _ img 0 _ (by intro w' hw'; simp at hw') w hw).2
+
+/-- the guard at work: a tape member `GAMES.K7` extracted beside the archive `GAMES.K7`, and a disk
+    member `DISK.SD` of side 0 extracted with `--into .` from `side0/DISK.SD`, are the archive -/
+example : samePath (pathJoin (Tape.targetDirOf (Tape.str "GAMES.K7") none) (Tape.str "GAMES.K7")) (Tape.str "GAMES.K7") = true
+    ∧ samePath (pathJoin (pathJoin (Tape.targetDirOf (Tape.str "side0/DISK.SD") (some (Tape.str "."))) (Tape.str "side0")) (Tape.str "DISK.SD")) (Tape.str "side0/DISK.SD") = true
+    ∧ samePath (Tape.str "out/GAMES.K7") (Tape.str "GAMES.K7") = false := by decide +kernel
 
 end Moto.C20
